@@ -733,7 +733,12 @@ func (s String) Split(args Tuple, kwargs StringDict) (Object, error) {
 	)
 	switch v := pyval.(type) {
 	case String:
-		vs = strings.SplitN(string(s), string(v), int(max)+1)
+		// a negative maxsplit (the default) means no limit
+		n := -1
+		if max >= 0 {
+			n = int(max) + 1
+		}
+		vs = strings.SplitN(string(s), string(v), n)
 	case NoneType:
 		vs = fieldsN(string(s), int(max))
 	default:
